@@ -175,6 +175,13 @@ func VerifTTLSequence() {
 	}
 	c.Stop()
 	zzverif.Assert(zzverif.ThreadsAliveIs(0), "stop_returns_after_cleaner_exited")
+	// Stop ends the background cleaner, nothing else: what was live is still served
+	for _, kk := range keys {
+		_, ok := c.Get(kk)
+		e, present := model[kk]
+		want := present && clk.Now().Sub(e.setAt) < time.Duration(e.ttlSec)*time.Second
+		zzverif.Assert(ok == want, "get_hit_iff_live_after_stop")
+	}
 	zzverif.Cover("ttl_sequence_done")
 }
 
